@@ -24,6 +24,8 @@ pub struct Workload {
     /// Route files matching f1*.txt through a (scripted, `cat`-like)
     /// preprocessor: another code path inside the workers, same results.
     pub pre: bool,
+    /// Which files go through the preprocessor ("" = all of them).
+    pub pre_glob: &'static str,
     /// Flags that must not change the permutation property (same flags in
     /// the single-threaded reference and in the scheduled runs).
     pub extra_flags: Vec<String>,
@@ -74,17 +76,19 @@ pub fn gen_workload(sub: u64) -> Workload {
         None
     };
     let (open_fault, read_fault) = if explicit.is_empty() { (open_fault, read_fault) } else { (None, None) };
-    let pre = rng.chance(1, 6) && mode != "files";
+    let pre = rng.chance(1, 5) && mode != "files";
+    let pre_glob = ["f1*.txt", "f1*.txt", "*.txt", ""][rng.below(4)];
     let mut extra_flags = vec![];
-    for f in ["--line-buffered", "--block-buffered", "--no-mmap", "--mmap", "-i", "--column", "--no-ignore", "--hidden", "-a", "--trim", "--no-unicode"] {
+    for f in ["--line-buffered", "--block-buffered", "--no-mmap", "--mmap", "-i", "--column", "--no-ignore", "--hidden", "-a", "--trim", "--no-unicode", "-U", "-U", "-z", "-Elatin1"] {
         if rng.chance(1, 9) && !(f == "--no-mmap" && extra_flags.iter().any(|x: &String| x == "--mmap")) && !(f == "--block-buffered" && extra_flags.iter().any(|x: &String| x == "--line-buffered")) {
             extra_flags.push(f.to_string());
         }
     }
+    extra_flags.dedup();
     if mode == "json" || mode == "files" {
         extra_flags.retain(|f| f != "--column" && f != "--trim");
     }
-    Workload { corpus, mode, threads, open_fault, read_fault, explicit, pre, extra_flags }
+    Workload { corpus, mode, threads, open_fault, read_fault, explicit, pre, pre_glob, extra_flags }
 }
 
 fn args_for(w: &Workload, threads: usize) -> Vec<String> {
@@ -109,10 +113,16 @@ fn args_for(w: &Workload, threads: usize) -> Vec<String> {
         a.push("--no-mmap".into());
     }
     if w.pre {
-        a.extend(["--pre".into(), STUB.into(), "--pre-glob".into(), "f1*.txt".into()]);
+        a.extend(["--pre".into(), STUB.into()]);
+        if !w.pre_glob.is_empty() {
+            a.extend(["--pre-glob".into(), w.pre_glob.into()]);
+        }
     }
     if w.mode != "files" {
-        a.push("foo".into());
+        // with -U some workloads use a pattern that can match across lines, so
+        // that the searcher really takes its whole-buffer multi-line strategy
+        let ml = w.extra_flags.iter().any(|f| f == "-U");
+        a.push(if ml && w.corpus.files.len() % 3 != 0 { ["foo\\s+\\w", "foo[^z]*?\\n"][w.corpus.files.len() % 2] } else { "foo" }.into());
     }
     if w.explicit.is_empty() {
         a.push("w".into());
